@@ -354,10 +354,10 @@ Lemma mk_diff_core_eq dt1 dt2 :
 Proof.
   unfold mk_diff, coerce_pair, mk_diff_core.
   destruct (Bool.eqb (is_datetime dt1) (is_datetime dt2)); cbn [fst snd].
-  - destruct dt1, dt2; cbn [ym_of fst snd]; apply bind_ext; intros dtm; apply bind_ext;
-    intros [months dtm']; reflexivity.
-  - destruct dt1, dt2; cbn [promote ym_of fst snd]; apply bind_ext; intros dtm; apply bind_ext;
-    intros [months dtm']; reflexivity.
+  - destruct dt1, dt2; cbv beta iota zeta delta [ym_of fst snd]; apply bind_ext; intros dtm;
+    apply bind_ext; intros [months dtm']; cbv beta iota zeta delta [fst snd residual]; reflexivity.
+  - destruct dt1, dt2; cbv beta iota zeta delta [promote ym_of fst snd]; apply bind_ext; intros dtm;
+    apply bind_ext; intros [months dtm']; cbv beta iota zeta delta [fst snd residual]; reflexivity.
 Qed.
 
 Lemma coerce_pair_valid dt1 dt2 : valid_dt dt1 = true -> valid_dt dt2 = true ->
@@ -539,24 +539,26 @@ Lemma spec_body_promote d y m dd :
   carries_time d = false -> wd d = None -> ab d = abs0 ->
   spec_body d (PDT y m dd 0 0 0 0) = option_map promote (spec_body d (PD y m dd)).
 Proof.
-  intros CT HW HA. destruct (no_time_fields d CT) as (H1 & H2 & H3 & H4).
-  unfold spec_body, spec_wd, spec_base. cbv zeta. rewrite HW, !HA.
-  cbn [ym_of fst snd abs0 a_year a_month a_day a_hour a_minute a_second a_us oget day_of].
-  set (t := 12 * y + (m - 1) + 12 * f_years (rel d) + f_months (rel d)).
+  destruct d as [r l a w]. cbn [wd ab]. intros CT -> ->.
+  destruct (no_time_fields _ CT) as (H1 & H2 & H3 & H4). cbn [rel] in H1, H2, H3, H4.
+  unfold spec_body, spec_wd, spec_base, spec_dur. cbv zeta.
+  cbn [rel ab wd leapdays ym_of fst snd abs0 a_year a_month a_day a_hour a_minute a_second a_us oget day_of].
+  rewrite H1, H2, H3, H4.
+  set (t := 12 * y + (m - 1) + 12 * f_years r + f_months r).
   set (d1 := Z.min dd (dim (t / 12) (t mod 12 + 1))).
-  cbn [valid_dt]. change (valid_time 0 0 0 0) with true. rewrite andb_true_r.
+  set (lp := if (2 <? t mod 12 + 1) && is_leap (t / 12) then l else 0).
+  unfold valid_dt at 1. change (valid_time 0 0 0 0) with true. rewrite andb_true_r.
+  change (valid_dt (PD (t / 12) (t mod 12 + 1) d1)) with (valid_ymd (t / 12) (t mod 12 + 1) d1).
   destruct (valid_ymd (t / 12) (t mod 12 + 1) d1) eqn:VB; [|reflexivity].
-  unfold spec_dur. rewrite H1, H2, H3, H4. cbn [lin at_lin].
-  change (tod 0 0 0 0) with 0.
-  set (lp := if (2 <? t mod 12 + 1) && is_leap (t / 12) then leapdays d else 0).
-  set (n := ord_of_ymd (t / 12) (t mod 12 + 1) d1 + (f_days (rel d) + lp)).
+  unfold at_lin, lin. change (tod 0 0 0 0) with 0.
+  set (n := ord_of_ymd (t / 12) (t mod 12 + 1) d1 + (f_days r + lp)).
   replace ((ord_of_ymd (t / 12) (t mod 12 + 1) d1 - 1) * us_day + 0 +
-           ((f_days (rel d) + lp) * us_day + 0 * 3600000000 + 0 * 60000000 + 0 * us_sec + 0))
+           ((f_days r + lp) * us_day + 0 * 3600000000 + 0 * 60000000 + 0 * us_sec + 0))
     with ((n - 1) * us_day) by (unfold n, us_day, us_sec; lia).
   destruct ((1 <=? n) && (n <=? max_ord)) eqn:C1;
   destruct ((0 <=? (n - 1) * us_day) && ((n - 1) * us_day <? lin_max_dt)) eqn:C2;
   try (exfalso; unfold lin_max_dt, max_ord, us_day in *; lia); [|reflexivity].
-  cbn [option_map]. f_equal. apply dt_of_lin_midnight.
+  unfold option_map. f_equal. apply dt_of_lin_midnight.
 Qed.
 
 Lemma promote_idem o : promote (promote o) = promote o.
@@ -573,9 +575,12 @@ Proof.
   destruct F as [OR NO]. destruct (only_relative_inv d OR) as (HL & HW & HA).
   assert (WF : wf_rd d = true).
   { unfold wf_rd. rewrite NO, HW, HA. reflexivity. }
-  unfold coerce_pair in A.
   destruct dt1 as [y1 m1 d1 | y1 m1 d1 hh1 mi1 ss1 us1];
-  destruct dt2 as [y2 m2 d2 | y2 m2 d2 hh2 mi2 ss2 us2]; cbn [is_datetime Bool.eqb fst snd promote] in A.
+  destruct dt2 as [y2 m2 d2 | y2 m2 d2 hh2 mi2 ss2 us2];
+  [ change (add_dt d (PD y2 m2 d2) = Ok (PD y1 m1 d1)) in A
+  | change (add_dt d (PDT y2 m2 d2 hh2 mi2 ss2 us2) = Ok (PDT y1 m1 d1 0 0 0 0)) in A
+  | change (add_dt d (PDT y2 m2 d2 0 0 0 0) = Ok (PDT y1 m1 d1 hh1 mi1 ss1 us1)) in A
+  | change (add_dt d (PDT y2 m2 d2 hh2 mi2 ss2 us2) = Ok (PDT y1 m1 d1 hh1 mi1 ss1 us1)) in A ].
   - eexists. split; [exact E|]. split; [exact A | reflexivity].
   - eexists. split; [exact E|]. split; [exact A | reflexivity].
   - (* dt1 a datetime, dt2 a date *)
@@ -599,3 +604,56 @@ Example diff_inverse_uncoerced_example :
   mk_diff (PDT 2001 3 1 0 0 0 0) (PD 2000 2 29) = Ok (mkrd (mkrel 1 0 1 0 0 0 0) 0 abs0 None) /\
   add_dt (mkrd (mkrel 1 0 1 0 0 0 0) 0 abs0 None) (PD 2000 2 29) = Ok (PD 2001 3 1).
 Proof. vm_compute. split; reflexivity. Qed.
+
+(* ---------------------------------------------------------------- the model's order is Python's *)
+(* date/datetime comparison in CPython is lexicographic on (year, month, day[, hour, minute,
+   second, microsecond]); the model compares positions on the time line.  They agree. *)
+Definition lex_lt_ymd (y m d y' m' d' : Z) : Prop :=
+  y < y' \/ (y = y' /\ (m < m' \/ (m = m' /\ d < d'))).
+
+Lemma ord_lt_lex y m d y' m' d' : valid_ymd y m d = true -> valid_ymd y' m' d' = true ->
+  (ord_of_ymd y m d < ord_of_ymd y' m' d' <-> lex_lt_ymd y m d y' m' d').
+Proof.
+  intros V V'. unfold valid_ymd, lex_lt_ymd in *.
+  assert (A : 12 * y + m < 12 * y' + m' -> ord_of_ymd y m d < ord_of_ymd y' m' d')
+    by (intros; apply ord_month_mono; lia).
+  assert (B : 12 * y' + m' < 12 * y + m -> ord_of_ymd y' m' d' < ord_of_ymd y m d)
+    by (intros; apply ord_month_mono; lia).
+  destruct (Z.lt_trichotomy (12 * y + m) (12 * y' + m')) as [L | [E | G]].
+  - specialize (A L). lia.
+  - assert (y = y' /\ m = m') as [-> ->] by lia. unfold ord_of_ymd. lia.
+  - specialize (B G). lia.
+Qed.
+
+Theorem lin_lt_lex_date y m d y' m' d' :
+  valid_dt (PD y m d) = true -> valid_dt (PD y' m' d') = true ->
+  (lin (PD y m d) < lin (PD y' m' d') <-> lex_lt_ymd y m d y' m' d').
+Proof. cbn [valid_dt lin]. apply ord_lt_lex. Qed.
+
+Theorem lin_lt_lex_datetime y m d hh mi ss us y' m' d' hh' mi' ss' us' :
+  valid_dt (PDT y m d hh mi ss us) = true -> valid_dt (PDT y' m' d' hh' mi' ss' us') = true ->
+  (lin (PDT y m d hh mi ss us) < lin (PDT y' m' d' hh' mi' ss' us') <->
+   lex_lt_ymd y m d y' m' d' \/
+   ((y, m, d) = (y', m', d') /\
+    (hh < hh' \/ (hh = hh' /\ (mi < mi' \/ (mi = mi' /\ (ss < ss' \/ (ss = ss' /\ us < us')))))))).
+Proof.
+  cbn [valid_dt lin]. intros V V'.
+  apply andb_prop in V. destruct V as [V T]. apply andb_prop in V'. destruct V' as [V' T'].
+  pose proof (ord_lt_lex _ _ _ _ _ _ V V') as L. pose proof (ord_lt_lex _ _ _ _ _ _ V' V) as L'.
+  pose proof (tod_range _ _ _ _ T) as R. pose proof (tod_range _ _ _ _ T') as R'.
+  assert (TL : tod hh mi ss us < tod hh' mi' ss' us' <->
+               (hh < hh' \/ (hh = hh' /\ (mi < mi' \/ (mi = mi' /\ (ss < ss' \/ (ss = ss' /\ us < us'))))))).
+  { unfold valid_time, tod, us_sec in *. lia. }
+  unfold lex_lt_ymd in *. unfold us_day in *.
+  destruct (Z.lt_trichotomy (ord_of_ymd y m d) (ord_of_ymd y' m' d')) as [A | [A | A]].
+  - split; [intros _; left; apply L; exact A | intros _; lia].
+  - assert (E : (y, m, d) = (y', m', d')).
+    { assert (~ lex_lt_ymd y m d y' m' d') by (unfold lex_lt_ymd; intros X; apply L in X; lia).
+      assert (~ lex_lt_ymd y' m' d' y m d) by (unfold lex_lt_ymd; intros X; apply L' in X; lia).
+      unfold lex_lt_ymd in *. assert (y = y' /\ m = m' /\ d = d') as (-> & -> & ->) by lia. reflexivity. }
+    split.
+    + intros H. right. split; [exact E|]. apply TL. lia.
+    + intros [H | [_ H]]; [apply L in H; lia | apply TL in H; lia].
+  - split; [intros H; lia|].
+    intros [H | [E _]]; [apply L in H; lia | injection E as -> -> ->; lia].
+Qed.
